@@ -390,6 +390,8 @@ class Run:
                 where = "store as reopened"
             rel = self.relation(op, affected) if affected else "n/a"
             sig = f"{self.kind} store after {op[0]}: {where}: {what} of {rel} [{cls}]"
+            if SUFFIX == "json" and self.kind == "dir":
+                sig = sig[:-1] + "; the store's record suffix is json]"
             if sig not in seen:
                 seen.add(sig)
                 self.failures.append((sig, {"affected": affected, "got": got, "want": want}))
@@ -437,7 +439,9 @@ def execute(kind, init_mode, hist, base):
 
 
 def explore(spec, acc):
+    global SUFFIX
     b = spec["bounds"]
+    SUFFIX = spec.get("suffix", "fasta")  # the directory store's record suffix for this shard
     kind, init_mode = spec["kind"], spec["mode"]
     base = tempfile.gettempdir()
     ops = alphabet(b)
@@ -480,7 +484,7 @@ def explore(spec, acc):
 
 def report(acc, kind, init_mode, hist, fails):
     for sig, detail in fails:
-        acc.fail(sig, {"kind": kind, "mode": init_mode, "history": [list(o) for o in hist]}, detail)
+        acc.fail(sig, {"kind": kind, "mode": init_mode, "history": [list(o) for o in hist], "suffix": SUFFIX}, detail)
 
 
 def shards(tier, seed):
@@ -490,6 +494,12 @@ def shards(tier, seed):
         for mode in b["init_modes"]:
             for op in alphabet(b):
                 out.append({"kind": kind, "mode": mode, "first": list(op), "bounds": b})
+    # a directory store whose records have the suffix json, which is also the suffix of its not-completed records
+    # (what write_json produces): a completed x.json and not_completed/x.json are different members
+    bj = dict(b, ids=["a", "ba", "a.json"])
+    for mode in b["init_modes"]:
+        for op in alphabet(bj):
+            out.append({"kind": "dir", "mode": mode, "first": list(op), "bounds": bj, "suffix": "json"})
     return out
 
 
@@ -498,6 +508,8 @@ def run_shard(spec, acc):
 
 
 def replay(case):
+    global SUFFIX
+    SUFFIX = case.get("suffix", "fasta")
     fails, _ = execute(case["kind"], case["mode"], [tuple(o) for o in case["history"]], tempfile.gettempdir())
     return fails
 
